@@ -16,6 +16,13 @@ const CAP: usize = 8192;
 static mut EVENTS: [Event; CAP] = [Event { alloc: false, addr: 0, size: 0, align: 0 }; CAP];
 static N: AtomicUsize = AtomicUsize::new(0);
 static ON: AtomicBool = AtomicBool::new(false);
+/// When set, every fresh allocation is filled with 0xA5 first: bytes the library forgets to
+/// initialise in a boxed structure then differ from what the specification says they are.
+static POISON: AtomicBool = AtomicBool::new(false);
+
+pub fn poison(on: bool) {
+    POISON.store(on, Ordering::Relaxed);
+}
 
 pub struct Tracking;
 
@@ -31,6 +38,9 @@ fn record(alloc: bool, addr: usize, size: usize, align: usize) {
 unsafe impl GlobalAlloc for Tracking {
     unsafe fn alloc(&self, l: Layout) -> *mut u8 {
         let p = System.alloc(l);
+        if !p.is_null() && POISON.load(Ordering::Relaxed) {
+            core::ptr::write_bytes(p, 0xA5, l.size());
+        }
         record(true, p as usize, l.size(), l.align());
         p
     }
@@ -41,6 +51,9 @@ unsafe impl GlobalAlloc for Tracking {
     unsafe fn realloc(&self, p: *mut u8, l: Layout, new_size: usize) -> *mut u8 {
         record(false, p as usize, l.size(), l.align());
         let q = System.realloc(p, l, new_size);
+        if !q.is_null() && new_size > l.size() && POISON.load(Ordering::Relaxed) {
+            core::ptr::write_bytes(q.add(l.size()), 0xA5, new_size - l.size());
+        }
         record(true, q as usize, new_size, l.align());
         q
     }
